@@ -726,6 +726,8 @@ class PDFDocument:
         self.decipher: Optional[DecipherCallable] = None
         self._parser = None
         self._cached_objs: Dict[int, Tuple[object, int]] = {}
+        # numbers of the objects being read right now (see getobj)
+        self._objs_in_progress: Set[int] = set()
         self._parsed_objs: Dict[int, Tuple[List[object], int]] = {}
         self._parser = parser
         self._parser.set_document(self)
@@ -866,27 +868,35 @@ class PDFDocument:
         if objid in self._cached_objs:
             (obj, genno) = self._cached_objs[objid]
         else:
-            for xref in self.xrefs:
-                try:
-                    (strmid, index, genno) = xref.get_pos(objid)
-                except KeyError:
-                    continue
-                try:
-                    if strmid is not None:
-                        stream = stream_value(self.getobj(strmid))
-                        obj = self._getobj_objstm(stream, index, objid)
-                    else:
-                        obj = self._getobj_parse(index, objid)
-                        if self.decipher:
-                            obj = decipher_all(self.decipher, objid, genno, obj)
-
-                    if isinstance(obj, PDFStream):
-                        obj.set_objid(objid, genno)
-                    break
-                except (PSEOF, PDFSyntaxError):
-                    continue
-            else:
+            if objid in self._objs_in_progress:
+                # the object is needed to read itself, e.g. a stream whose
+                # /Length is a reference to that stream
                 raise PDFObjectNotFound(objid)
+            self._objs_in_progress.add(objid)
+            try:
+                for xref in self.xrefs:
+                    try:
+                        (strmid, index, genno) = xref.get_pos(objid)
+                    except KeyError:
+                        continue
+                    try:
+                        if strmid is not None:
+                            stream = stream_value(self.getobj(strmid))
+                            obj = self._getobj_objstm(stream, index, objid)
+                        else:
+                            obj = self._getobj_parse(index, objid)
+                            if self.decipher:
+                                obj = decipher_all(self.decipher, objid, genno, obj)
+
+                        if isinstance(obj, PDFStream):
+                            obj.set_objid(objid, genno)
+                        break
+                    except (PSEOF, PDFSyntaxError):
+                        continue
+                else:
+                    raise PDFObjectNotFound(objid)
+            finally:
+                self._objs_in_progress.discard(objid)
             log.debug("register: objid=%r: %r", objid, obj)
             if self.caching:
                 self._cached_objs[objid] = (obj, genno)
